@@ -83,12 +83,12 @@ struct MappedProbe : pgm::MappedPGMIndex<K, Eps, EpsRec> {
 };
 
 template<class K>
-std::vector<K> gen_mapped_keys(Rng &r, size_t eps, size_t maxn, std::string &family) {
-    if (r.chance(1, 2)) return gen_int_keys<K>(r, eps, maxn, family);
+std::vector<K> gen_mapped_keys(Rng &r, size_t eps, size_t maxn, std::string &family, size_t force_n = 0) {
+    if (r.chance(1, 2)) return gen_int_keys<K>(r, eps, maxn, family, force_n);
     // runs of equal keys of chosen lengths: 1,2,3, 2^j-1, 2^j, 2^j+1 (the gallop doubles), eps, 2eps+2, 2eps+3, 10eps
     using D = UDom<K>;
     family = "gallop_runs";
-    size_t n = pick_n(r, maxn);
+    size_t n = force_n ? force_n : pick_n(r, maxn);
     std::vector<uint64_t> u;
     uint64_t R = D::R;
     uint64_t cur = 0;
@@ -125,8 +125,15 @@ void mapped_case(Ctx &c) {
         order = c.given->vec<int>("order");
     } else {
         size_t maxn = c.thorough() ? (c.case_idx % 40 == 39 ? (size_t(1) << 18) : 6000) : 3000;
-        d = gen_mapped_keys<K>(c.rng, Eps, maxn, family);
-        align = c.rng.chance(1, 3);
+        size_t force_n = 0;
+        if (c.rng.chance(1, 7)) {
+            // "round" element counts: block-, page- and buffer-size multiples and their neighbours (I/O is done in blocks)
+            force_n = c.rng.pick<size_t>({256, 512, 1024, 2048, 4096, 4096, 8192, 8192, 12288, 16384}) + c.rng.pick<size_t>({0, 0, 0, 1}) - c.rng.pick<size_t>({0, 0, 0, 1});
+            if (c.thorough() && c.rng.chance(1, 6)) force_n = c.rng.pick<size_t>({32768, 65536, 131072});
+        }
+        d = gen_mapped_keys<K>(c.rng, Eps, maxn, family, force_n);
+        if (force_n) family += "+round_n";
+        align = !force_n && c.rng.chance(1, 3);
     }
     const std::string tag = std::to_string(getpid());
     const std::string fa = "mapped." + tag + ".A", fb = "mapped." + tag + ".B", raw = "mapped." + tag + ".raw";
@@ -271,7 +278,9 @@ void mapped_case(Ctx &c) {
     c.count("page_aligned_files", page_aligned);
     c.count("mappings_guarded", vf_shim::maps());
     vf_shim::maps() = 0;
-    c.count("family_" + family);
+    c.count("family_" + family.substr(0, family.find('+')));
+    if (n % 4096 == 0) c.count("n_multiple_of_4096");
+    if ((n & (n - 1)) == 0) c.count("n_power_of_two");
     c.maxc("max_n", n);
     size_t segs = obj[0] ? obj[0]->segments_count() : 0;
     c.nontrivial = c12 ? (d.front() != K(0) && segs >= 2) : (long_runs >= 1 && absent >= 1);
